@@ -18,7 +18,9 @@ from ..prog import DIALECT_CLASSES, registry
 PROP = "C09"
 LEVEL = "exploration"
 RULE = ("exhaustive product limit x offset x setter x ORDER BY x position x dialect x mode (every combination, both tiers); the "
-        "thorough tier adds the same product around seeded random surrounding clauses (where/group by/joins/distinct). "
+        "surrounding clauses where/group by/join and ORDER BYs that belong to nested queries (IN subquery, window, CTE body); every "
+        "container carries a value of its own behind the embedded query; set operations are ordered themselves or through their first "
+        "operand only (thorough adds distinct). "
         "non-trivial = limit or offset present; distinct = the full combination")
 ASSUMPTIONS = [
     "row-limit grammar per dialect: SQLite/MySQL LIMIT n [OFFSET m]; PostgreSQL and the generic class [LIMIT n] [OFFSET m]; "
